@@ -79,7 +79,7 @@ Fixpoint text_keys (stack : list (nat * list string)) (ls : list tline) : list (
   | TLClass i n :: r => text_keys ((i, n) :: filter (fun e => Nat.ltb (fst e) i) stack) r
   | TLDef i n :: r =>
       let st := filter (fun e => Nat.ltb (fst e) i) stack in
-      (concat (rev (map snd st)), n) :: text_keys st r
+      (List.concat (rev (map snd st)), n) :: text_keys st r
   end.
 
 Definition key_eqb (a b : list string * string) : bool :=
